@@ -302,15 +302,15 @@ C01.defined: wherever constraints_and_type_name renders a component with the `<P
     }
     ctx.floor("C01.text2tok/fns-with-sites", sites.len(), 12);
     ctx.extra.insert("text2tok_sites".into(), json!(sites));
-    defined(m, ctx);
+    defined(m, ctx, "C01.defined");
 }
 
 /// C01.defined: a component's type is rendered by `constraints_and_type_name`, which names an anonymous inner type
 /// `<Parent><Field>` (inner_name); the definition of that type is only emitted when `needs_unnesting` says so. The two
 /// are evaluated on every nesting shape of anonymous types under SEQUENCE OF / SET OF up to depth 3: wherever the
 /// rendered type mentions the inner name, the definition must be requested.
-fn defined(m: &Model, ctx: &mut Ctx) {
-    let (Some(nu), Some(ct)) = (anchor_fn(m, ctx, "C01.defined", Some("Rasn"), "needs_unnesting", None), anchor_fn(m, ctx, "C01.defined", Some("Rasn"), "constraints_and_type_name", None)) else { return };
+pub fn defined(m: &Model, ctx: &mut Ctx, rule: &str) {
+    let (Some(nu), Some(ct)) = (anchor_fn(m, ctx, rule, Some("Rasn"), "needs_unnesting", None), anchor_fn(m, ctx, rule, Some("Rasn"), "constraints_and_type_name", None)) else { return };
     let consts = const_resolver(m);
     let inl = inline_all(m, &["Rasn"]);
     let hook = |_: &Evaluator, name: &str, a: &[Val]| -> Option<Result<Val, String>> {
@@ -362,13 +362,13 @@ fn defined(m: &Model, ctx: &mut Ctx) {
     let mut n = 0;
     for (name, v) in &shapes {
         n += 1;
-        ctx.oblige("C01.defined", name, name.contains(" OF "));
+        ctx.oblige(rule, name, name.contains(" OF "));
         let mut e1 = Env::new();
         e1.insert(p_nu.first().cloned().unwrap_or("ty".into()), v.clone());
         let hoisted = match ev.eval_fn_body(&nu.block, &mut e1) {
             Ok(Val::Bool(b)) => b,
-            Ok(o) => { ctx.fail_closed("C01.defined", &format!("[needs_unnesting {}]: {}", name, o.show())); continue }
-            Err(e) => { ctx.fail_closed("C01.defined", &format!("[needs_unnesting {}]: {}", name, e)); continue }
+            Ok(o) => { ctx.fail_closed(rule, &format!("[needs_unnesting {}]: {}", name, o.show())); continue }
+            Err(e) => { ctx.fail_closed(rule, &format!("[needs_unnesting {}]: {}", name, e)); continue }
         };
         let mut e2 = Env::new();
         e2.insert("self".into(), Val::ctor("Rasn"));
@@ -378,15 +378,15 @@ fn defined(m: &Model, ctx: &mut Ctx) {
         let rendered = match ev.eval_fn_body(&ct.block, &mut e2) {
             Ok(Val::Ctor(ok, p, _)) if ok == "Ok" => match p.first() {
                 Some(Val::Tuple(t)) if t.len() == 2 => t[1].show(),
-                o => { ctx.fail_closed("C01.defined", &format!("[constraints_and_type_name {}]: {:?}", name, o.map(|x| x.show()))); continue }
+                o => { ctx.fail_closed(rule, &format!("[constraints_and_type_name {}]: {:?}", name, o.map(|x| x.show()))); continue }
             },
-            Ok(o) => { ctx.fail_closed("C01.defined", &format!("[constraints_and_type_name {}]: {}", name, o.show())); continue }
-            Err(e) => { ctx.fail_closed("C01.defined", &format!("[constraints_and_type_name {}]: {}", name, e)); continue }
+            Ok(o) => { ctx.fail_closed(rule, &format!("[constraints_and_type_name {}]: {}", name, o.show())); continue }
+            Err(e) => { ctx.fail_closed(rule, &format!("[constraints_and_type_name {}]: {}", name, e)); continue }
         };
         if rendered.contains("INNER") && !hoisted {
-            ctx.violate("C01.defined", &format!("inner-type-not-defined:{}", name.replace(' ', "_")), &nu.file, nu.line,
+            ctx.violate(rule, &format!("inner-type-not-defined:{}", name.replace(' ', "_")), &nu.file, nu.line,
                 &format!("a component of type `{}` is rendered as `{}` (INNER = the `<Parent><Field>` inner type) but needs_unnesting() is false for it: the inner type is referred to and never defined (E0425 in the generated bindings)", name, rendered));
         }
     }
-    ctx.floor("C01.defined/shapes", n, 100);
+    ctx.floor(&format!("{}/shapes", rule), n, 100);
 }
